@@ -1339,6 +1339,12 @@ func c18Xor(p *Prog, rp *Report) {
 			if xorPathwise(fn, ret) {
 				continue
 			}
+			// a result cell shared with the body of a range-over-func loop (`return nil, err` inside the loop body
+			// stores into the cells and leaves through the function's common exit): the value cell only ever
+			// receives zero values
+			if rangefuncReturnOK(ret) {
+				continue
+			}
 			tm := newTermer()
 			bad = fmt.Sprintf("at %s the error may be non-nil (%s) while the value returned is %s", p.Pos(ret.Pos()), tm.term(errv), tm.term(val))
 		}
@@ -1668,6 +1674,9 @@ func xorOK(p *Prog, fn *ssa.Function, depth int) bool {
 		if xorPathwise(fn, ret) {
 			continue
 		}
+		if rangefuncReturnOK(ret) {
+			continue
+		}
 		xorMemo[fn] = false
 		return false
 	}
@@ -1868,4 +1877,114 @@ func memoType(ta *ssa.TypeAssert) bool {
 		}
 	}
 	return true
+}
+
+// cellAlwaysZero: every store to the cell, in its function and in the closures that capture it, stores a zero
+// value, and the cell's address goes nowhere else.
+func cellAlwaysZero(cell ssa.Value, depth int) bool {
+	if depth > 3 || cell.Referrers() == nil {
+		return false
+	}
+	for _, ref := range *cell.Referrers() {
+		switch x := ref.(type) {
+		case *ssa.DebugRef:
+		case *ssa.UnOp:
+			if x.Op != token.MUL {
+				return false
+			}
+		case *ssa.Store:
+			if x.Addr != cell || !isZeroValue(x.Val) {
+				return false
+			}
+		case *ssa.MakeClosure:
+			f, ok := x.Fn.(*ssa.Function)
+			if !ok {
+				return false
+			}
+			for i, b := range x.Bindings {
+				if b == cell {
+					if i >= len(f.FreeVars) || !cellAlwaysZero(f.FreeVars[i], depth+1) {
+						return false
+					}
+				}
+			}
+		default:
+			return false
+		}
+	}
+	return true
+}
+
+// rangefuncReturnOK: ret is the exit through which a `return` statement inside the body of a range-over-func loop
+// leaves the function (go/ssa: block rangefunc.resume.match): it returns the result cells as the loop body (a
+// closure) last stored them. In every block of such a closure that stores to the value cell, the value stored is
+// zero or the error stored next to it is the nil constant.
+func rangefuncReturnOK(ret *ssa.Return) bool {
+	if !strings.HasPrefix(ret.Block().Comment, "rangefunc.") || len(ret.Results) != 2 {
+		return false
+	}
+	cellOf := func(v ssa.Value) *ssa.Alloc {
+		if u, ok := v.(*ssa.UnOp); ok && u.Op == token.MUL {
+			if al, ok := u.X.(*ssa.Alloc); ok {
+				return al
+			}
+		}
+		return nil
+	}
+	vc, ec := cellOf(ret.Results[0]), cellOf(ret.Results[1])
+	if vc == nil || ec == nil || vc.Referrers() == nil {
+		return false
+	}
+	found := false
+	for _, ref := range *vc.Referrers() {
+		mc, ok := ref.(*ssa.MakeClosure)
+		if !ok {
+			continue
+		}
+		f, ok := mc.Fn.(*ssa.Function)
+		if !ok {
+			return false
+		}
+		var vfv, efv ssa.Value
+		for i, b := range mc.Bindings {
+			if i < len(f.FreeVars) {
+				if b == ssa.Value(vc) {
+					vfv = f.FreeVars[i]
+				}
+				if b == ssa.Value(ec) {
+					efv = f.FreeVars[i]
+				}
+			}
+		}
+		if vfv == nil || efv == nil {
+			return false
+		}
+		for _, b := range f.Blocks {
+			var vs, es *ssa.Store
+			for _, ins := range b.Instrs {
+				if st, ok := ins.(*ssa.Store); ok {
+					if st.Addr == vfv {
+						vs = st
+					}
+					if st.Addr == efv {
+						es = st
+					}
+				}
+			}
+			if vs == nil {
+				continue
+			}
+			found = true
+			if isZeroValue(vs.Val) {
+				continue
+			}
+			if es != nil {
+				if c, ok := es.Val.(*ssa.Const); ok && c.Value == nil {
+					continue
+				}
+			}
+			return false
+		}
+	}
+	return found
 }
